@@ -55,6 +55,8 @@ type ctx struct {
 	loops    *[]loop
 	funcName string
 	count    int
+	fnBody   *ast.BlockStmt // body of the enclosing top-level function (to find where a timer was made)
+	loopBody *ast.BlockStmt // body of the service loop being translated
 }
 
 func (c *ctx) text(n ast.Node) string {
@@ -149,6 +151,55 @@ func (c *ctx) terminator(body []ast.Stmt, sc scope, where string) string {
 	return "Fall"
 }
 
+// oneShot: the case receives from X.C where X was made by time.NewTimer in this function and is
+// never re-armed (X.Reset) inside the loop: such a case can be taken once only, so a periodic
+// service built on it runs a single period. (time.After(...) in the case itself makes a fresh
+// timer every iteration; a time.NewTicker keeps ticking.)
+func (c *ctx) oneShot(e ast.Expr, loopBody *ast.BlockStmt) bool {
+	sel, ok := e.(*ast.SelectorExpr)
+	if !ok || sel.Sel.Name != "C" {
+		return false
+	}
+	id, ok := sel.X.(*ast.Ident)
+	if !ok || c.fnBody == nil {
+		return false
+	}
+	made := false
+	ast.Inspect(c.fnBody, func(x ast.Node) bool {
+		as, ok := x.(*ast.AssignStmt)
+		if !ok || len(as.Lhs) != 1 || len(as.Rhs) != 1 {
+			return true
+		}
+		l, ok := as.Lhs[0].(*ast.Ident)
+		if !ok || l.Name != id.Name {
+			return true
+		}
+		if call, ok := as.Rhs[0].(*ast.CallExpr); ok {
+			if f, ok := call.Fun.(*ast.SelectorExpr); ok {
+				if p, ok := f.X.(*ast.Ident); ok && p.Name == "time" && f.Sel.Name == "NewTimer" {
+					made = true
+				}
+			}
+		}
+		return true
+	})
+	if !made {
+		return false
+	}
+	rearmed := false
+	ast.Inspect(loopBody, func(x ast.Node) bool {
+		if call, ok := x.(*ast.CallExpr); ok {
+			if f, ok := call.Fun.(*ast.SelectorExpr); ok && f.Sel.Name == "Reset" {
+				if p, ok := f.X.(*ast.Ident); ok && p.Name == id.Name {
+					rearmed = true
+				}
+			}
+		}
+		return !rearmed
+	})
+	return !rearmed
+}
+
 func (c *ctx) commChan(cc *ast.CommClause, where string) string {
 	recv := func(e ast.Expr) string {
 		for {
@@ -161,6 +212,9 @@ func (c *ctx) commChan(cc *ast.CommClause, where string) string {
 		u, ok := e.(*ast.UnaryExpr)
 		if !ok || u.Op != token.ARROW {
 			failf("%s: select case is not a channel receive", where)
+		}
+		if c.loopBody != nil && c.oneShot(u.X, c.loopBody) {
+			return "oneshot:" + c.text(u.X)
 		}
 		return c.text(u.X)
 	}
@@ -230,6 +284,8 @@ func (c *ctx) serviceLoop(f *ast.ForStmt, labels map[string]bool, loopLabel stri
 	}
 	sc := scope{outer: outer, loopLabel: loopLabel, selLabel: selLabel}
 	c.count++
+	c.loopBody = f.Body
+	defer func() { c.loopBody = nil }()
 	l := loop{Name: fmt.Sprintf("%s:%s:L%d", c.rel, c.funcName, c.line(f)), SeesClosed: seesClosed}
 	for _, cl := range sel.Body.List {
 		cc := cl.(*ast.CommClause)
@@ -416,7 +472,7 @@ func translateFiles(files map[string][]byte) []loop {
 			if !ok || fd.Body == nil {
 				continue
 			}
-			c := &ctx{fset: fset, src: files[n], rel: n, structs: structs, loops: &out, funcName: fd.Name.Name}
+			c := &ctx{fset: fset, src: files[n], rel: n, structs: structs, loops: &out, funcName: fd.Name.Name, fnBody: fd.Body}
 			sees := paramsHaveClosed(fd.Type) || structs[recvTypeName(fd)]
 			c.walkChildren(fd.Body, map[string]bool{}, sees)
 		}
@@ -454,6 +510,9 @@ func (l loop) coq() string {
 func loopOK(l loop) bool {
 	listens := false
 	for _, c := range l.Cases {
+		if strings.HasPrefix(c.Chan, "oneshot:") {
+			return false
+		}
 		if isShutdownChan(c.Chan) {
 			listens = true
 			if c.Term != "Return" && c.Term != "BreakLabel" {
